@@ -135,6 +135,12 @@ func Dump(repo, spec string) int {
 		}
 	})
 	fmt.Printf("%+v\n", res)
+	for _, h := range loopHeaders(fn) {
+		r2 := an.EnumPathsTo(fn, h, nil, h, func(s *an.PathState) {
+			fmt.Printf("ITER(header %d) %s stop=%v\n  facts: %s\n", h.Index, s.BlockPath(), s.StopBlock != nil, s.FactsString())
+		})
+		fmt.Printf("iteration mode header %d: %+v\n", h.Index, r2)
+	}
 	return 0
 }
 
@@ -547,4 +553,14 @@ func sliceElems(s *an.PathState, t *an.Term) ([]*an.Term, bool) {
 // lowZero: a slice expression without lower bound (x[:n] and x[0:n] are the same term).
 func lowZero(t *an.Term) bool {
 	return t != nil && t.Op == "slice" && len(t.Args) == 4 && (t.Args[1] == nil || t.Args[1].IsConst("0"))
+}
+
+// selfStore: *a = *a — the value stored is the one just read from the same place (a helper such as
+// positiveOr(v, current) on the branch that keeps the current value).
+func selfStore(e an.Event) bool {
+	if e.Kind != "store" || len(e.Args) != 2 || e.Args[1] == nil {
+		return false
+	}
+	v := e.Args[1].StripConv()
+	return v.Op == "load" && len(v.Args) == 1 && v.Args[0] != nil && v.Args[0].K == e.Args[0].K
 }
